@@ -39,6 +39,9 @@ func verifStubDate(year int, month time.Month, day, hour, min, sec, nsec int, lo
 	sym.Assert(loc != nil, "time.Date is never called with a nil location (it panics)")
 	verifDate.y, verifDate.mon, verifDate.d, verifDate.h, verifDate.mi, verifDate.s, verifDate.ns = year, int(month), day, hour, min, sec, nsec
 	off, ok := verifZoneOff[loc]
+	if loc == time.UTC {
+		off, ok = 0, true // the predefined UTC location: offset zero
+	}
 	verifDate.off, verifDate.local = off, !ok
 	return time.Time{}
 }
